@@ -370,7 +370,9 @@ ADDENDA = {
     "C05": " At engine level (CacheExplain3.v): the rule a Decision names matches the request by match_resource with the guard's own "
            "type mode, with the documented type / id / attrs table visible in the statement; also at every site of a cached history.",
     "C08": " With the role resolver (CacheGuardR.v): transparency re-proved for two guards each with its own (possibly stateful) resolver "
-           "sharing one cache — the key holds the expanded roles; the resolver-free model is the instance without resolvers.",
+           "sharing one cache — the key holds the expanded roles; the resolver-free model is the instance without resolvers; the resolver "
+           "histories of the correspondence run (static graphs, failing resolvers, graphs edited along the history) are replayed through "
+           "this model (runner entry cg.runR).",
     "C18": " Engine side (RolesEngine.v): what the resolver answered is what conditions read at subject.roles (hasAny / hasAll / contains "
            "/ in decide membership in it) and what the audit payload records; without an answer the own roles are there unchanged.",
     "C20": " Composed with the engine model (AsgiEngine.v): the downstream application runs only if the policy has an applicable permit "
